@@ -894,6 +894,26 @@ func (s *PathState) deriveAtoms(a Atom) bool {
 	if a.B == nil {
 		return true
 	}
+	// (value, error) results of functions that deliver a non-nil value exactly when the error is nil
+	if a.Op == "==" && a.B.IsConst("nil") && a.A.Op == "extract" && len(a.A.Args) == 1 {
+		if cc := a.A.Args[0]; cc != nil && cc.Op == "call" && valueOrError(cc) {
+			val := &Term{K: cc.K + "#0", Op: "extract", Aux: "0", Args: []*Term{cc}}
+			errT := &Term{K: cc.K + "#1", Op: "extract", Aux: "1", Args: []*Term{cc}}
+			switch a.A.Aux {
+			case "1": // err == nil: the value is there
+				if s.hasAtom("==", val, a.B) {
+					return false
+				}
+				s.addDerived("!=", val, a.B)
+			case "0": // value == nil: the error is not nil
+				if s.hasAtom("==", errT, a.B) {
+					return false
+				}
+				s.addDerived("!=", errT, a.B)
+			}
+		}
+		return true
+	}
 	// strings: emptiness
 	if isStringTerm(a.A) && a.B.IsConst(`""`) && (a.Op == "==" || a.Op == "!=") {
 		lt := &Term{K: "len(" + a.A.K + ")", Op: "call", Aux: "builtin len", Args: []*Term{a.A}}
@@ -1349,6 +1369,51 @@ func EnumPathsTo(fn *ssa.Function, from *ssa.BasicBlock, target ssa.Instruction,
 		found := false
 		for _, b := range fn.Blocks {
 			for _, in := range b.Instrs {
+				if d, isDefer := in.(*ssa.Defer); isDefer {
+					// the target lives in a deferred function interpreted at the exits: go to every point where the
+					// deferred calls run on a path that registered this defer, then into the deferred function
+					g := deferCallee(d)
+					if g == nil || !deepContains(g, target) {
+						continue
+					}
+					found = true
+					for _, rb := range fn.Blocks {
+						for _, rin := range rb.Instrs {
+							rd, isRD := rin.(*ssa.RunDefers)
+							if !isRD {
+								continue
+							}
+							r := EnumPathsTo(fn, from, rd, nil, func(s *PathState) {
+								var ev *Event
+								for i := range s.defers {
+									if s.defers[i].In == ssa.Instruction(d) {
+										ev = &s.defers[i]
+									}
+								}
+								if ev == nil {
+									return
+								}
+								ts, complete := templates(g, target)
+								if !complete {
+									res.Complete = false
+								}
+								for _, t := range ts {
+									s2 := s.clone()
+									if ok, _ := s2.applyTemplateDefer(d, ev.Args, g, t, true); !ok {
+										res.Infeasible++
+										continue
+									}
+									res.Paths++
+									visit(s2)
+								}
+							})
+							if !r.Complete {
+								res.Complete = false
+							}
+						}
+					}
+					continue
+				}
 				c, ok := in.(*ssa.Call)
 				if !ok {
 					continue
@@ -1630,6 +1695,10 @@ func (s *PathState) exec(bi, ii int, target ssa.Instruction, emit func(*PathStat
 				}
 				return
 			}
+			if _, ok := in.(*ssa.RunDefers); ok && s.hasInlineDefer() {
+				s.runDefersFork(len(s.defers)-1, func(s2 *PathState) { s2.exec(i, k+1, target, emit, drop) }, drop)
+				return
+			}
 			if lk, ok := in.(*ssa.Lookup); ok {
 				if ct := tableOf(lk.X); ct != nil && ct.IsMap {
 					s.forkLookup(lk, ct, func(s2 *PathState) { s2.exec(i, k+1, target, emit, drop) }, drop)
@@ -1793,4 +1862,65 @@ func returnsFresh(f *ssa.Function, depth int) bool {
 	}
 	freshMemo[f] = 1
 	return true
+}
+
+// valueOrError: the callee of this two-result call returns a non-nil first result exactly when its error is nil — the
+// library constructors listed here, and module functions every return of which is (nil-or-anything, non-nil error) or
+// (known non-nil value, error) (computed from their own paths, memoised).
+var valueOrErrorLib = map[string]bool{
+	"os.Open": true, "os.OpenFile": true, "os.Create": true, "os.CreateTemp": true, "net.Listen": true, "net.Dial": true,
+	"net.DialUnix": true, "net.ListenUnix": true, "crypto/aes.NewCipher": true, "crypto/cipher.NewGCM": true,
+}
+var valueOrErrorMemo = map[*ssa.Function]int{}
+
+func valueOrError(cc *Term) bool {
+	if valueOrErrorLib[cc.Aux] {
+		return true
+	}
+	c, ok := cc.V.(*ssa.Call)
+	if !ok {
+		return false
+	}
+	f := c.Common().StaticCallee()
+	if f == nil || curProg == nil || !curProg.InRepo(f) || len(f.Blocks) == 0 {
+		return false
+	}
+	if v, ok := valueOrErrorMemo[f]; ok {
+		return v == 1
+	}
+	valueOrErrorMemo[f] = 0
+	res := f.Signature.Results()
+	if res.Len() != 2 || res.At(1).Type().String() != "error" {
+		return false
+	}
+	if _, isPtr := res.At(0).Type().Underlying().(*types.Pointer); !isPtr {
+		return false
+	}
+	good, n := true, 0
+	r := EnumPaths(f, nil, nil, func(s *PathState) {
+		if len(s.Events) == 0 {
+			return
+		}
+		ret := s.Events[len(s.Events)-1]
+		if ret.Kind != "return" || len(ret.Args) != 2 {
+			return
+		}
+		n++
+		v, e := ret.Args[0], ret.Args[1]
+		if s.NonNil(e) || knownNonNil(e) {
+			return
+		}
+		if knownNonNil(v) || s.NonNil(v) {
+			return
+		}
+		if v.Op == "extract" && e.Op == "extract" && v.Aux == "0" && e.Aux == "1" && v.Args[0] == e.Args[0] && v.Args[0].Op == "call" && valueOrError(v.Args[0]) {
+			return // both results of such a call, handed on unchanged
+		}
+		good = false
+	})
+	if good && n > 0 && r.Complete {
+		valueOrErrorMemo[f] = 1
+		return true
+	}
+	return false
 }
